@@ -47,10 +47,33 @@ def gen_portable(repo, work):
     return {os.path.join(repo, "src/zz_verif_portable.go"): out}
 
 
+LIFTS = [
+    dict(name="streamPusher", file="src/core.go", func="Run", contains="pattern.MatchItem(&item", pkg="./src"),
+    dict(name="plainBuilder", file="src/core.go", func="Run", contains="item.text, item.colors = ansiProcessor(data)", pkg="./src"),
+    dict(name="nthBuilder", file="src/core.go", func="Run", contains="item.origText = &data", pkg="./src"),
+    dict(name="walkFn", file="src/reader.go", func="readFiles", contains="filepath.SkipDir", pkg="./src"),
+]
+
+
+def gen_lifts(repo, work):
+    """Closure lifting (DESIGN §2.5): wrappers generated from the current source by `symgo lift`."""
+    import os, json, subprocess
+    spec = os.path.join(work, "lifts.json")
+    json.dump(LIFTS, open(spec, "w"))
+    out = os.path.join(work, "lifted")
+    os.makedirs(out, exist_ok=True)
+    engine = os.path.join(os.path.dirname(os.path.dirname(os.path.abspath(__file__))), "engine", "symgo")
+    r = subprocess.run([engine, "lift", repo, spec, out], capture_output=True, text=True)
+    if r.returncode != 0:
+        raise RuntimeError("closure lifting failed: " + (r.stderr or r.stdout)[-500:])
+    return json.loads(r.stdout)
+
+
 def src_suite(name, jobs, **consts):
-    """A suite over package fzf (src): harness files of algo + src, the portable comparator copy, optional scaled constants."""
+    """A suite over package fzf (src): harness files of algo + src, the portable comparator copy, lifted closures, optional scaled constants."""
     def gen(repo, work):
         ov = gen_portable(repo, work)
+        ov.update(gen_lifts(repo, work))
         if consts:
             ov.update(scaled_constants(**consts)(repo, work))
         return ov
